@@ -26,6 +26,24 @@ CHECKS = {
              "The quick tier covers all boundary windows, all |v| < 2^20 and ~2e7 strided values.",
         note="Trusted: the 8-line prefix decoder in harness/h_asm.cpp. Text-level completeness is for two of twelve mnemonics.",
         ref="4/C04"),
+    "C05": dict(
+        technique="runtime monitoring: decode-walk of every emitted image against the generator's directive list (label addresses derived from the walk, operands checked with the ISA rule), layout-pass hook as termination monitor",
+        engine="asm-decode",
+        text="Exploration: generated assembly programs (boundary sweeps of every reference kind around the 1/2/3/4-byte operand "
+             "boundaries in both directions, dependent chains, DATA-alignment interplay, labels before DATA, random programs, shipped .S "
+             "files) are assembled by the real code; each accepted image is walked directive by directive and every relative operand must "
+             "satisfy end+operand = label address, every absolute operand = label word address (unaligned must be rejected), DATA aligned and "
+             "equal, padding zero, header length = image size, symbol table = FUNC/PROC positions.",
+        note="Trusted: lib/asmsrc.py decode_walk and the ISA prefix rule. Rejected programs are counted, not judged. Duplicate labels are out of scope (C10).",
+        ref="4/C05"),
+    "C17": dict(
+        technique="runtime monitoring: listing lines decoded against the emitted image at their listed offsets",
+        engine="asm-decode",
+        text="Exploration: for generated and shipped assembly programs (in-process API in bulk, the real hexasm executable with "
+             "--instrs and -o in separate runs for a sample) and compiled X programs (xcmp -S), every instruction/DATA line of the listing is "
+             "checked against the image: opcode, encoded length, operand value (immediate or label value), order, zero gaps, nothing left over.",
+        note="Trusted: lib/asmsrc.py check_listing. Label and PADDING lines and the trailing total are outside the property.",
+        ref="4/C17"),
 }
 
 PENDING_REASON = "no check registered yet in this revision of /verif (machinery for it is still being built; see DESIGN.md section 4)"
@@ -56,7 +74,7 @@ def main():
         "engines": [
             {"name": "refisa", "path": "harness/refisa.hpp", "serves_properties": ["C02"],
              "kind_free_text": "executable reference model of the Hex ISA with pre-step classifier and access monitors"},
-            {"name": "asm-decode", "path": "harness/h_asm.cpp", "serves_properties": ["C04"],
+            {"name": "asm-decode", "path": "harness/h_asm.cpp", "serves_properties": ["C04", "C05", "C17"],
              "kind_free_text": "in-process assembler driver (HEX_VERIF layout hook) with image decode-walk"},
             {"name": "buildcache", "path": "lib/common.py", "serves_properties": sorted(CHECKS),
              "kind_free_text": "content-hash build cache, fork-per-case runner, verdict/evidence/known-finding plumbing"},
